@@ -89,6 +89,15 @@ def check_panics(res, facts):
     res.floor('entry_partitions', col.entries, 150)
 
 
+def check_midi_panics(res, facts):
+    """the 'never panics' clause of C06: R-PANIC over the MIDI entry partitions only (parser states x byte classes x held-list
+    length classes, pre-states restricted to the class invariant, which is re-established on every post-state)"""
+    col = Collector(res, facts)
+    with panic_policy('judge'):
+        midi_entries(col, facts)
+    res.floor('midi_entry_partitions', col.entries, 100)
+
+
 def adsr_entries(col, facts):
     dds = D.Dds(facts)
     dds.need_levels = False
@@ -249,21 +258,40 @@ def ribbon_entries(col, facts):
         N = Poly.sym('param:BUFFER_CAPACITY')
         a = o.ctx.decide(cmp_term('Le', g('num_samples_received'), g('num_to_ignore_up_front'))) is True
         b = o.ctx.decide(cmp_term('Le', g('num_samples_written'), N)) is True
-        return [(a, 'received <= ignore: %r' % (g('num_samples_received'),)), (b, 'written <= capacity: %r' % (g('num_samples_written'),))]
+        out = [(a, 'received <= ignore: %r' % (g('num_samples_received'),)), (b, 'written <= capacity: %r' % (g('num_samples_written'),))]
+        # a press is only reported while the run has filled the buffer; the buffer holds at least the samples of the run
+        pr = R.bool_of(o.ctx, post.get('finger_is_pressing'))
+        c = pr is False or o.ctx.decide(cmp_term('Eq', g('num_samples_written'), N)) is True
+        out.append((c, 'pressing => written == capacity: pressing=%s written=%r' % (pr, g('num_samples_written'))))
+        buf = post.get('buff')
+        fill = buf.extra.get('fill') if isinstance(buf, ContV) and buf.extra else None
+        if fill is not None:
+            d = o.ctx.decide(cmp_term('Le', g('num_samples_written'), fill)) is True
+            out.append((d, 'written <= samples held by the buffer: written=%r fill=%r' % (g('num_samples_written'), fill)))
+        return out
     for in_rng in (True, False):
+      for pressing in (True, False):
         for settled in ((True, False) if in_rng else (None,)):
             for full in ((True, False) if settled else (None,)):
                 it = Interp(facts)
                 st = State()
-                rc, N = rb.controller(it, st)
+                rc, N = rb.controller(it, st, pressing=pressing)
                 g = lambda nm: rc.get(nm).term
+                # class invariant (re-established by `inv` on every post-state)
+                if pressing:
+                    st.ctx.assume(cmp_term('Eq', g('num_samples_written'), N))
+                buf0 = rc.get('buff')
+                if isinstance(buf0, ContV) and buf0.extra and buf0.extra.get('fill') is not None:
+                    st.ctx.assume(cmp_term('Le', g('num_samples_written'), buf0.extra['fill']))
                 x = float_sym(st, 'x', 0, 1)
                 st.ctx.assume(cmp_term('Lt' if in_rng else 'Ge', x.term, g('finger_press_high_boundary')))
                 if settled is not None:
                     st.ctx.assume(cmp_term('Ge' if settled else 'Lt', g('num_samples_received') + 1, g('num_to_ignore_up_front')))
                 if full is not None:
                     st.ctx.assume(cmp_term('Ge' if full else 'Lt', g('num_samples_written') + 1, N))
-                col.run('RibbonController::poll|in=%s|settled=%s|full=%s' % (in_rng, settled, full), it, st, R.RCF + 'poll', rc, [x], genv={'BUFFER_CAPACITY': N}, post_inv=inv)
+                if pressing and full is False:
+                    continue    # excluded by the invariant: a reported press has a full buffer
+                col.run('RibbonController::poll|in=%s|pressing=%s|settled=%s|full=%s' % (in_rng, pressing, settled, full), it, st, R.RCF + 'poll', rc, [x], genv={'BUFFER_CAPACITY': N}, post_inv=inv)
     for meth in ('value', 'finger_is_pressing', 'finger_just_pressed', 'finger_just_released'):
         it = Interp(facts)
         st = State()
@@ -291,7 +319,23 @@ def midi_entries(col, facts):
         if ok:
             ok, r = in_range(o.ctx, lst.len, 0, cap)
         ok2, r2 = in_range(o.ctx, post.get('channel').term, 0, 15)
-        return [(ok, 'held list length <= %d: %s' % (cap, r)), (ok2, 'channel <= 15: %s' % r2)]
+        out = [(ok, 'held list length <= %d: %s' % (cap, r)), (ok2, 'channel <= 15: %s' % r2)]
+        # the rest of the class invariant the pre-states assume (class_inv): gate <=> non-empty, edge latches consistent
+        if ok:
+            llo, lhi = o.ctx.rng(lst.len)
+            g = M.bool_of(o.ctx, post.get('gate')) if hasattr(M, 'bool_of') else None
+            rg = M.bool_of(o.ctx, post.get('rising_gate')) if hasattr(M, 'bool_of') else None
+            fg = M.bool_of(o.ctx, post.get('falling_gate')) if hasattr(M, 'bool_of') else None
+            out.append(((g is True and llo >= 1) or (g is False and lhi == 0), 'gate <=> held list non-empty: gate=%s len in [%s,%s]' % (g, llo, lhi)))
+            out.append((rg is False or g is True, 'rising edge pending => gate high: rising=%s gate=%s' % (rg, g)))
+            out.append((fg is False or g is False, 'falling edge pending => gate low: falling=%s gate=%s' % (fg, g)))
+            hull = o.ctx.elem_hull(lst.term)
+            out.append((hull is not None and hull[0] >= 0 and hull[1] <= 127, 'held note numbers <= 127: element hull %s' % (hull,)))
+        nn = post.get('note_num')
+        if isinstance(nn, Num):
+            ok3, r3 = in_range(o.ctx, nn.term, 0, 127)
+            out.append((ok3, 'selected note number <= 127: %s' % r3))
+        return out
     it = rxf.interp()
     st = State()
     col.run('MonoMidiReceiver::new', it, st, M.RX + '::new', None, [int_sym(st, 'c', 0, 255)])
@@ -299,10 +343,11 @@ def midi_entries(col, facts):
     for sname in snames:
         for cname, lo, hi in (('data', 0, 0x7F), ('channel-status', 0x80, 0xEF), ('system', 0xF0, 0xFF)):
             # only data bytes can complete a message and reach the handlers: partition the held list there
-            for lr in (len_classes if cname == 'data' else [(0, cap)]):
+            # every byte class is analysed per length class so that the pre-state can carry the class invariant
+            for lr in len_classes:
                 it = rxf.interp()
                 st = State()
-                rx = rxf.receiver(it, st, list_len=lr)
+                rx = rxf.receiver(it, st, list_len=lr, class_inv=True)
                 vi = variant_index(facts, M.PST, sname)
                 sv = EnumV(M.PST, vi, {}, vnames=snames, name='state')
                 it.enum_payload(st, sv, vi)
